@@ -90,8 +90,8 @@ class AstToSqlVisitor(visitor.NodeVisitor):
             intervals.append(f"INTERVAL '{seconds}' SECOND")
 
         if len(intervals) == 0:
-            # Shouldn't occur but whatever
-            return ""
+            # A duration without any component has no SQL representation:
+            raise exceptions.ValueException(node.val)
         if len(intervals) == 1:
             return f"{sign}{intervals[0]}"
         if len(intervals) > 1:
